@@ -52,7 +52,7 @@ static void explore(const Item& it, const std::vector<alpha::Sym>& sigma_full, V
 
 // -------------------------------------------------------------------------------- C09b: monotonicity
 // For every script/stack explored at depth<=2 under all 2^8 subsets of R: success(B) => success(B \ {f}).
-static void monotonic_scripts(ref::SigVer sv, const std::vector<bytes>& init, const std::vector<bytes>& scripts_in, const std::vector<uint32_t>& bits, Violations& V, long long& pairs, long long& scripts, long long& strict_edges);
+static void monotonic_scripts(ref::SigVer sv, const std::vector<bytes>& init, const std::vector<bytes>& scripts_in, const std::vector<uint32_t>& bits, Violations& V, long long& pairs, long long& scripts, long long& strict_edges, bool allow_disabled = false);
 
 static void monotonic(ref::SigVer sv, const std::vector<bytes>& init, const std::vector<alpha::Sym>& sigma, int depth, Violations& V, long long& pairs, long long& scripts, long long& strict_edges) {
     // enumerate all symbol sequences of length 1..depth (no dedup: the relation is per script)
@@ -86,7 +86,27 @@ static std::vector<bytes> sig_lattice_scripts() {
 }
 static std::vector<uint32_t> sig_lattice_bits() { return {ref::F_STRICTENC, ref::F_NULLFAIL, ref::F_DERSIG, ref::F_LOW_S, ref::F_WITNESS_PUBKEYTYPE, ref::F_NULLDUMMY, ref::F_CONST_SCRIPTCODE, ref::F_DISCOURAGE_UPGRADABLE_PUBKEYTYPE}; }
 
-static void monotonic_scripts(ref::SigVer sv, const std::vector<bytes>& init, const std::vector<bytes>& scripts_in, const std::vector<uint32_t>& bits, Violations& V, long long& pairs, long long& scripts, long long& strict_edges) {
+// re-enabled opcodes (--allow-disabled-opcodes): every operand tuple over a small value set, pushed minimally
+static std::vector<bytes> ext_lattice_scripts() {
+    std::vector<bytes> vals; for (const char* h : {"", "01", "02", "03", "81", "0100", "6162636465", "ff00"}) vals.push_back(ref::unhex(h));
+    auto push = [](const bytes& d) { return d.empty() ? bytes{0x00} : (d.size() == 1 && d[0] >= 1 && d[0] <= 16) ? bytes{uint8_t(0x50 + d[0])} : (d.size() == 1 && d[0] == 0x81) ? bytes{0x4f} : ref::push_raw(d); };
+    std::vector<bytes> out;
+    for (uint8_t op : {0x7e, 0x7f, 0x80, 0x81, 0x83, 0x84, 0x85, 0x86, 0x8d, 0x8e, 0x95, 0x96, 0x97, 0x98, 0x99}) {
+        int ar = op == 0x7f ? 3 : (op == 0x83 || op == 0x8d || op == 0x8e) ? 1 : 2;
+        std::vector<size_t> idx(ar, 0);
+        while (true) {
+            bytes s; for (int i = 0; i < ar; i++) { bytes p = push(vals[idx[i]]); s.insert(s.end(), p.begin(), p.end()); }
+            s.push_back(op); out.push_back(s);
+            // non-minimal spelling of the last operand where one exists (direct push of a small number)
+            if (vals[idx[ar - 1]].size() == 1 && vals[idx[ar - 1]][0] >= 1 && vals[idx[ar - 1]][0] <= 16) { bytes t; for (int i = 0; i + 1 < ar; i++) { bytes p = push(vals[idx[i]]); t.insert(t.end(), p.begin(), p.end()); } bytes p = ref::push_raw(vals[idx[ar - 1]]); t.insert(t.end(), p.begin(), p.end()); t.push_back(op); out.push_back(t); }
+            int k = ar - 1; while (k >= 0 && ++idx[k] == vals.size()) { idx[k] = 0; k--; }
+            if (k < 0) break;
+        }
+    }
+    return out;
+}
+
+static void monotonic_scripts(ref::SigVer sv, const std::vector<bytes>& init, const std::vector<bytes>& scripts_in, const std::vector<uint32_t>& bits, Violations& V, long long& pairs, long long& scripts, long long& strict_edges, bool allow_disabled) {
     std::vector<uint32_t> sets = alpha::subsets(bits);
     for (auto& script : scripts_in) {
         std::vector<char> ok(sets.size());
@@ -94,7 +114,7 @@ static void monotonic_scripts(ref::SigVer sv, const std::vector<bytes>& init, co
         for (size_t k = 0; k < sets.size(); k++) {
             impl::Session s;
             note(replay_json(Cfg{sv, sets[k], init}, script).s);
-            if (!s.open(script, init, sets[k], sv, false)) { skip = true; break; }
+            if (!s.open(script, init, sets[k], sv, allow_disabled)) { skip = true; break; }
             bool r;
             try { r = ContinueScript(*s.inst.env); } catch (const std::exception&) { r = false; }
             ok[k] = r;
@@ -108,7 +128,7 @@ static void monotonic_scripts(ref::SigVer sv, const std::vector<bytes>& init, co
                 pairs++;
                 if (ok[k] != ok[sub]) strict_edges++;
                 if (ok[k] && !ok[sub]) {
-                    V.add(std::string("monotonic:sv=") + impl::sv_name(sv) + ";flag=" + alpha::flags_str(bits[b]),
+                    V.add(std::string("monotonic:sv=") + impl::sv_name(sv) + ";flag=" + alpha::flags_str(bits[b]) + (allow_disabled ? ";re-enabled-opcodes" : ""),
                           "script succeeds under " + alpha::flags_str(sets[k]) + " but fails with flag " + alpha::flags_str(bits[b]) + " removed; script=" + ref::hex(script) + " init=" + impl::stack_str(init),
                           replay_json(Cfg{sv, sets[k], init}, script));
                 }
@@ -235,11 +255,18 @@ int main(int argc, char** argv) {
         plan.push_back("all symbol sequences of length 1.." + std::to_string(depth) + " from every initial stack over " + std::to_string(small.size()) + " small values of length 0.." + std::to_string(lenI) + " x 3 sigversions, each run under all 256 subsets of R; every cover edge of the subset lattice checked");
         plan.push_back("signature-encoding lattice: 972 scripts ending in CHECKSIG / CHECKSIGVERIFY / 1-of-1 CHECKMULTISIG (optionally followed by NOT) fed with every pair of 9 encoding-shaped operands (empty, garbage, compressed / uncompressed / hybrid key shapes, DER shapes with defined and undefined hash type, high S) x 3 sigversions, each run under all 256 subsets of {STRICTENC, NULLFAIL, DERSIG, LOW_S, WITNESS_PUBKEYTYPE, NULLDUMMY, CONST_SCRIPTCODE, DISCOURAGE_UPGRADABLE_PUBKEYTYPE}");
         std::vector<bytes> sigscripts = sig_lattice_scripts();
+        plan.push_back("re-enabled opcodes (allow_disabled_opcodes on): the 15 opcodes x every operand tuple over 8 values (empty, 1, 2, 3, -1, non-minimal 1, a 5-byte string, ff00; minimal and direct-push spelling of the last operand) x 3 sigversions, each under all 256 subsets of R");
+        std::vector<bytes> extscripts = ext_lattice_scripts();
         size_t nsig_items = 3 * 4;   // 3 sigversions x 4 slices of the script list
-        parallel_for(mis.size() + nsig_items, default_workers(), tmp, "c09",
+        size_t next_items = 3 * 4;
+        parallel_for(mis.size() + nsig_items + next_items, default_workers(), tmp, "c09",
             [&](size_t i, FILE* o) {
                 Violations v; long long p = 0, s = 0, se = 0;
-                if (i >= mis.size()) {
+                if (i >= mis.size() + nsig_items) {
+                    size_t j = i - mis.size() - nsig_items; ref::SigVer sv = svs[j / 4]; size_t slice = j % 4;
+                    std::vector<bytes> part; for (size_t k = slice; k < extscripts.size(); k += 4) part.push_back(extscripts[k]);
+                    monotonic_scripts(sv, {}, part, alpha::R(), v, p, s, se, true);
+                } else if (i >= mis.size()) {
                     size_t j = i - mis.size(); ref::SigVer sv = svs[j / 4]; size_t slice = j % 4;
                     std::vector<bytes> part; for (size_t k = slice; k < sigscripts.size(); k += 4) part.push_back(sigscripts[k]);
                     monotonic_scripts(sv, {}, part, sig_lattice_bits(), v, p, s, se);
